@@ -26,11 +26,15 @@ type Call struct {
 	// AfterWrites (plan now): 0 = the reply is sent the moment the request is complete (before the
 	// echo of the client's trailing return); N = it is sent after the N-th transport write of the
 	// call was processed, i.e. after the echo of the trailing return(s): nothing follows the reply.
-	AfterWrites int    `json:"after_writes,omitempty"`
-	Nonce       string `json:"nonce"`
-	Shape       int    `json:"shape"` // reply element spelling, see buildPayload
-	Body        string `json:"body"`  // ok | data | error
-	Fill        string `json:"fill,omitempty"`
+	AfterWrites int `json:"after_writes,omitempty"`
+	// plan straddle: the first HeadPct percent of the framed reply are sent right after the call's
+	// last write, the rest TailAtMs milliseconds after the call started (the caller's timeout is 150)
+	HeadPct  int    `json:"head_pct,omitempty"`
+	TailAtMs int    `json:"tail_at_ms,omitempty"`
+	Nonce    string `json:"nonce"`
+	Shape    int    `json:"shape"` // reply element spelling, see buildPayload
+	Body     string `json:"body"`  // ok | data | error
+	Fill     string `json:"fill,omitempty"`
 	// Decoy: the filler quotes a message-id="N" attribute as text (N a past id, the next id, a far id)
 	Decoy string `json:"decoy,omitempty"`
 	// big fillers are given by length and seed instead of verbatim
@@ -49,9 +53,11 @@ type Session struct {
 	Echo    bool   `json:"echo"`
 	// NoEchoMark: no message mark after an echoed request: one read may carry the tail of the echo
 	// together with (part of) the reply that follows. The echo is not a server message.
-	NoEchoMark bool       `json:"no_echo_mark,omitempty"`
-	Seg        devsim.Seg `json:"seg"`
-	Calls      []Call     `json:"calls"`
+	NoEchoMark bool `json:"no_echo_mark,omitempty"`
+	// ReadDelayMs: channel read delay (0 = the library's default of 250 us; never busy polling)
+	ReadDelayMs int        `json:"read_delay_ms,omitempty"`
+	Seg         devsim.Seg `json:"seg"`
+	Calls       []Call     `json:"calls"`
 }
 
 const (
@@ -236,6 +242,8 @@ func GenSession(r *rand.Rand, idx int) Session {
 	s := Session{Version: []string{"1.0", "1.1"}[idx%2], Echo: (idx/2)%2 == 1}
 	p := r.Intn(100)
 	switch {
+	case idx%5 == 2: // a fixed share of sessions with replies that straddle the caller's deadline
+		s.Profile = "straddle"
 	case p < 2 || idx%16 == 5: // a fixed share of long sessions whatever the PRNG says
 		s.Profile = "long"
 	case p < 19:
@@ -262,6 +270,14 @@ func GenSession(r *rand.Rand, idx int) Session {
 	case "all-late":
 		n = 3 + r.Intn(8)
 		s.Seg = segs[r.Intn(len(segs))]
+	case "straddle":
+		n = 5 + r.Intn(8)
+		s.Seg = segs[r.Intn(len(segs))]
+		s.ReadDelayMs = []int{0, 10, 20, 20, 30, 30, 40, 50}[r.Intn(8)]
+		if s.ReadDelayMs > 0 {
+			// every transport read costs one read delay: only large reads
+			s.Seg = []devsim.Seg{{Mode: "whole"}, {Mode: "fixed", Size: 4096}, {Mode: "mix", Size: 4096}}[r.Intn(3)]
+		}
 	default:
 		s.Seg = segs[r.Intn(len(segs))]
 	}
@@ -286,6 +302,8 @@ func GenSession(r *rand.Rand, idx int) Session {
 		maxFill = 120
 	case s.Profile == "long":
 		maxFill = 200
+	case s.Profile == "straddle":
+		maxFill = 300
 	}
 	releases := []string{"before-next", "before-next", "with-next-before", "next-write-1", "next-write-2", "after-next", "after-2", "at-end"}
 	if s.Version == "1.1" {
@@ -300,6 +318,20 @@ func GenSession(r *rand.Rand, idx int) Session {
 		switch s.Profile {
 		case "all-late":
 			c.Plan = "late"
+		case "straddle":
+			switch {
+			case q < 46:
+				c.Plan = "straddle"
+			case q < 90:
+				c.Plan = "now"
+			case q < 96:
+				c.Plan = "late"
+			default:
+				c.Plan = "never"
+			}
+			if k == n-1 || (k > 0 && s.Calls[k-1].Plan == "straddle" && q%10 < 6) {
+				c.Plan = "now" // a straddling reply is usually followed by a call that must get its own reply
+			}
 		case "alternating":
 			c.Plan = []string{"now", "late"}[k%2]
 			if q < 15 && k%2 == 1 {
@@ -368,6 +400,23 @@ func GenSession(r *rand.Rand, idx int) Session {
 		}
 		if c.Plan == "late" {
 			c.Release = releases[r.Intn(len(releases))]
+		}
+		if c.Plan == "straddle" {
+			c.HeadPct = 10 + r.Intn(81)
+			if r.Intn(10) < 7 {
+				// 3-40 ms before the 150 ms deadline, scaled to the read delay: that is how long the
+				// tail may sit in the channel queue before the NETCONF read loop takes it
+				w := s.ReadDelayMs
+				if w < 10 {
+					w = 10
+				}
+				if w > 40 {
+					w = 40
+				}
+				c.TailAtMs = 150 - 3 - r.Intn(w-2)
+			} else {
+				c.TailAtMs = 150 + r.Intn(31) // just after it
+			}
 		}
 		if c.Plan == "now" && r.Intn(5) < 2 {
 			c.AfterWrites = 2 // 1.0: request, return
